@@ -262,6 +262,32 @@ def gen_bytes_cases(rng, per_len, long_n):
     return cs
 
 
+# ------------------------------------------------------------------ small-scope exhaustive enumeration
+def exhaustive_cases(full):
+    """All pairs of Float sequences of length <= 2 over {+0, -0, 1, inf} (every pair of kinds when full,
+    Array vs List otherwise), and when full all pairs of maps over keys {0, 5, 10} (one home slot in a
+    5-slot table) with values {1, 2} in the kind pairs Table/Table, Table/Tree, Tree/Tree."""
+    F = [0x0, 0x8000000000000000, 0x3ff0000000000000, 0x7ff0000000000000]
+    seqs = [[]] + [[a] for a in F] + [[a, b] for a in F for b in F]
+    kinds = [(ka, kb) for ka in 'ALU' for kb in 'ALU'] if full else [('A', 'L')]
+    cs = []
+    for ka, kb in kinds:
+        for x in seqs:
+            for y in seqs:
+                cs.append('V %s %s' % (show((ka, [('F', v) for v in x])), show((kb, [('F', v) for v in y]))))
+    if full:
+        maps = []
+        for v0 in (None, 1, 2):
+            for v5 in (None, 1, 2):
+                for v10 in (None, 1, 2):
+                    maps.append([(('I', k), ('I', v)) for k, v in ((0, v0), (5, v5), (10, v10)) if v is not None])
+        for ka, kb in (('H', 'H'), ('H', 'E'), ('E', 'E')):
+            for x in maps:
+                for y in maps:
+                    cs.append('V %s %s' % (show((ka, x if ka == 'E' else x[::-1])), show((kb, y))))
+    return cs
+
+
 # ------------------------------------------------------------------ shrinking of value cases
 def parse_term(s, i=0):
     k = s[i]; i += 1
@@ -502,6 +528,12 @@ def run(ctx):
         return
     d.feed(CORPUS, 'corpus')
     d.feed(gen_bytes_cases(ctx.rng, 20 if quick else 200, 60 if quick else 2000))
+    ex = exhaustive_cases(not quick)
+    d.feed(ex)
+    ctx.cov['exhaustive'] = ('%d cases: all pairs of Float sequences of length <= 2 over {+0.0, -0.0, 1.0, inf}, %s; %s'
+                             % (len(ex), 'Array vs List' if quick else 'all 9 pairs of Array/List/Tuple',
+                                'maps only in the thorough tier' if quick else
+                                'all pairs of maps over keys {0,5,10} x values {1,2} for Table/Table, Table/Tree, Tree/Tree'))
     n = 3000 if quick else 100000
     cases = [gen_case(ctx.rng) for _ in range(n)]
     for i in range(0, n, 2000):
